@@ -365,6 +365,11 @@ def main():
     if prop.get("probe_violation"):
         for tname, fails in B.PROBE_FAILURES.items():
             for f in fails:
+                if f.get("optional"):
+                    # an instantiation the harness would like to use but the property does not promise:
+                    # that part of the harness is compiled out, nothing is reported
+                    log(f"[{pid}] note: optional compile probe failed ({f['what']}); harness part left out")
+                    continue
                 dest = os.path.join(artdir, f"probe_{f['name']}.cpp")
                 with open(dest, "w") as fh:
                     fh.write("// compile probe: " + f["what"] + "\n// g++ -std=gnu++17 -fsyntax-only "
